@@ -509,11 +509,18 @@ def enum_tail(tier):
 
 # --------------------------------------------------------------------------- Hypothesis
 
-_SIZES = st.one_of(
-  st.integers(0, 4), st.integers(0, 4), st.integers(0, 80), st.integers(0, 600),
-  st.sampled_from([2030, 2039, 2040, 2041, 2048, 2049, 2100, 4096, 8180, 8184, 8192, 8200, 9000]),
-  st.sampled_from([20000, 65535]),
-)
+@st.composite
+def _sizes(draw):
+  sel = draw(st.integers(0, 19))
+  if sel < 8:
+    return draw(st.integers(0, 4))
+  if sel < 12:
+    return draw(st.integers(0, 80))
+  if sel < 14:
+    return draw(st.integers(0, 600))
+  if sel < 19:
+    return draw(st.sampled_from([2030, 2039, 2040, 2041, 2048, 2049, 2100, 4096, 8180, 8184, 8192, 8200, 9000]))
+  return draw(st.sampled_from([20000, 65535]))
 
 
 @st.composite
@@ -524,7 +531,9 @@ def spec_strategy(draw, side, small=False):
   if t in (R.STATS_REQUEST, R.STATS_REPLY):
     k = draw(st.sampled_from(R.STATS_KINDS[:6] * 3 + [R.OFPST_VENDOR]))
   f = draw(st.integers(0, 40))
-  target = draw(st.integers(0, 80) if small else _SIZES)
+  target = draw(st.integers(0, 80) if small else _sizes())
+  if R.unit(t, k) > 1:
+    target = min(target, 9200)            # thousands of actions/ports/entries only cost decode time
   n = R.n_for_size(t, k, f, target)
   xid = draw(st.one_of(st.integers(0, 20), st.sampled_from([0, 0x7fffffff, 0x80000000, 0xffffffff]), st.integers(0, 0xffffffff)))
   d = {"t": t, "xid": xid}
